@@ -111,7 +111,14 @@ def run(rep, tier, seed, proof_ok):
                 "a clean value set x spellings (k positional + reordered keywords, defaults explicit or omitted) x {values passed "
                 "directly, literals seen in source}; real get_arg_ctx / get_arg_ctx_ast vs the Coq model; all spellings of one "
                 "binding must agree, distinct bindings must differ; distinct = distinct (function, call); non-trivial = call with a "
-                "keyword or an omitted default")
+                "keyword or an omitted default; + whole evaluations where a parameter named like a module variable is the kept "
+                "argument; + whole evaluations of real module files whose in-source dds.keep arguments (and the callee's defaults) are "
+                "spelled in every way python allows for a literal or near-literal (unary + - ~ not, parentheses, binary constant "
+                "expressions, implicit concatenation, _ / hex / octal / binary / exponent / complex spellings, 32-bit boundaries, "
+                "-0.0, bytes / None / True / False / ..., displays, starred) x {positional, keyword, reordered, default omitted} x "
+                "{own path, shared path}: every evaluation and the direct call with the same values must return what plain execution "
+                "of the call returns, calls binding different values (python's own binding) never share a signature, all-constant "
+                "spellings of one binding share the signature of the direct call")
     n_funcs = 60 if tier == "quick" and proof_ok else 500
     cases = []
     for _ in range(n_funcs):
@@ -193,13 +200,18 @@ def run(rep, tier, seed, proof_ok):
         rep.violation("binding-collision:marker-string", "f(1) with default None and f(1, '__none__') share one argument signature",
                       {"def": mk["def"], "calls": mk["calls"], "sig": r[0]})
     n_prog = run_programs(rep)
-    rep.extra["input_distribution"] = {"functions": len(cases), "calls": mi, "seen_in_source": n_ast, "whole_evaluation_programs": n_prog}
+    import c13_literals
+    lit = c13_literals.run(rep, tier, seed, rng)
+    rep.extra["input_distribution"] = dict({"functions": len(cases), "calls": mi, "seen_in_source": n_ast, "whole_evaluation_programs": n_prog}, **lit)
     rep.sample({"def": cases[0]["def"], "call": call_src(cases[0]["calls"][0])})
     rep.sample({"def": cases[-1]["def"], "call": call_src(cases[-1]["calls"][-1])})
 
 
 def replay(path):
     r = json.load(open(path))["replay"]
+    if "literal_case" in r:
+        import c13_literals
+        return c13_literals.replay(r)
     calls = [r["call1"], r["call2"]] if "call1" in r else r.get("calls", [r.get("call")])
     out = C.run_driver("drive_small.py", {"kind": "argctx", "cases": [{"def": r["def"], "calls": calls}]})[0]
     print(json.dumps({"def": r["def"], "calls": calls, "impl": out}, indent=1))
